@@ -531,7 +531,10 @@ fn fmt_job(e: &Entry, tier: Tier, c11: bool) -> JobOut {
                                     rep.judged += 1;
                                     tally.judged[7] += 1;
                                     let exp = pad_rule(neg0, body, &spec);
-                                    if got_s != exp {
+                                    if got_s != exp && got.is_some() && pad_lenient(neg0, body, &spec, &got_s) {
+                                        // padding distributed differently from Formatter::pad_integral, but only padding differs
+                                        *rep.extra.entry("renderings_with_nonstandard_padding_distribution".into()).or_default() += 1;
+                                    } else if got_s != exp {
                                         rep.violation(Violation {
                                             key: format!("{} {}:flags", l.class(), TRAITS[tr]),
                                             diff: if got.is_none() { "panic".into() } else { "padding-or-prefix".into() },
